@@ -8,6 +8,7 @@ from fractions import Fraction
 import common
 from common import case_rng, fl, fll, nl, f2b, same_vec, same_float, gfloat, dyadic, parse_reply, floats_of
 import dsl, framework, leandrv
+import c19_heap
 from framework import Finding
 
 PID = "C19"
@@ -63,6 +64,11 @@ THEOREMS = [
     "MysticVerif.C19.set_mean_value",
     "MysticVerif.C19.set_center_masses",
     "MysticVerif.C19.measure_normalize",
+    # shared factor objects (Model/DiscreteHeap): update / load on the object graph
+    "MysticVerif.C19.heap_update_obs",
+    "MysticVerif.C19.heap_update_frame",
+    "MysticVerif.C19.heap_load_obs",
+    "MysticVerif.C19.heap_load_frame",
 ]
 
 RTOL = 1e-9
@@ -1455,7 +1461,11 @@ def gen_values(rng):
     return {"kind": "values", "exact": exact, "pm": ms, "values": vals, "f": e, "m": gen_pos(rng, exact)}
 
 
-KINDS = {"roundtrip": (gen_roundtrip, case_roundtrip), "update": (gen_update, case_update),
+def case_heap(spec):
+    return c19_heap.build_case(spec, Case)
+
+
+KINDS = {"heap": (c19_heap.gen_heap, case_heap), "roundtrip": (gen_roundtrip, case_roundtrip), "update": (gen_update, case_update),
          "scenario": (gen_scenario, case_scenario), "helpers": (gen_helpers, case_helpers),
          "measure": (gen_measure_case, case_measure), "impose": (gen_impose, case_impose),
          "stats2": (gen_stats2, case_stats2), "values": (gen_values, case_values)}
@@ -1490,7 +1500,7 @@ def shape_spec(sizes):
 
 def gen_spec(rng):
     kinds = ["roundtrip"] * 5 + ["update"] * 3 + ["scenario"] * 2 + ["helpers"] * 3 + ["measure"] * 3
-    kinds += ["impose"] * 3 + ["stats2"] * 3 + ["values"] * 2
+    kinds += ["impose"] * 3 + ["stats2"] * 3 + ["values"] * 2 + ["heap"] * 4
     kind = rng.choice(kinds)
     return KINDS[kind][0](rng)
 
@@ -1611,12 +1621,21 @@ def main(tier, seed):
             "disjoint pair sets, negative and out-of-range indices, size-1 factors, all the weight on one point, surplus parameters), "
             "stats2 (measure and product_measure maximum/minimum/ptp/ess_* with ties and factors without support, measure expect/"
             "expect_var/support/support_index, product center_mass getter and setter incl. too short a list, measure.normalize), values "
-            "(scenario pof_value with exact zeros, mean_value, set_mean_value; value lists shorter/longer than the product). non-trivial "
+            "(scenario pof_value with exact zeros, mean_value, set_mean_value; value lists shorter/longer than the product), heap (object "
+            "graphs with SHARED objects: the same measure object used for several factors, several collections over the same factor "
+            "objects (product_measure(c), c[:], copy.copy(c)), measures sharing point masses (measure(m)), a point mass held twice; "
+            "programs of 1-5 operations update / load (full, surplus, short parameters; product_measure and scenario) / flatten / "
+            "shallow copies / scenario(c, values) / product_measure([..]) / measure(m) / measure and product setters (positions, weights, "
+            "center_mass, range, var, normalize; too long / too short lists), ALL collections and named measures observed after "
+            "every operation). non-trivial "
             "= the clause under test is exercised: >= 2 factors and >= 2 points (roundtrip), at least one factor addressed (update), "
             "values present (scenario), ill-fitting input (helpers), non-degenerate setter (measure), a non-degenerate addressed factor "
-            "(impose), >= 2 factors (stats2), >= 2 values on a non-degenerate product (values)")
+            "(impose), >= 2 factors (stats2), >= 2 values on a non-degenerate product (values), sharing present and a mutating "
+            "operation run (heap)")
     tb = ["Lean 4.33 kernel; axioms per theorem listed under coverage.theorems",
           "hand-written model Model/Discrete.lean tied to mystic.math.discrete / measures by this differential run only",
+          "object identity: Model/DiscreteHeap.lean addresses python objects by index (cells / measure objects / collection "
+          "objects); the monitor of the heap stream decides what is shared with python's id(), not with the model",
           "sum-like statistics (mass, center_mass, expect, pof) are compared bit-exactly in the exactness regime and with rel 1e-9 "
           "otherwise (python's compensated sum / numpy reductions are not replicated); expect_var, var and the range/var setters "
           "always with rel 1e-9 when not bit-identical (count in histogram 'compared-with-tolerance')",
